@@ -75,7 +75,32 @@ func VerifC07_OldRevisionChildren() {
 		}
 	}
 
-	switch rt.Choice("event", 2) {
+	switch rt.Choice("event", 3) {
+	case 2:
+		// a SECOND revisioned edit while the first rollout is paused (A -> B -> C):
+		// two superseded revisions exist at once, each child still has to carry the
+		// template of the revision that lists it
+		rt.Cover("second-revisioned-edit")
+		thirdV := rt.String("third-template")
+		rt.Assume(thirdV != oldV && thirdV != newV)
+		r.setSpec(thirdV)
+		for i := 0; i < 2; i++ {
+			rt.Assert(r.sync() == nil, "second-edit-sync/error")
+			for _, n := range []string{"a", "b"} {
+				v, ok := r.childField(n, "k")
+				if !ok {
+					continue // RollingRecreate: deleted, recreated by the next sync
+				}
+				found := false
+				for _, rev := range r.w.Srv.Revs() {
+					if verifRevLists(rev, n) && verifPatchHas(rev.ParentPatch.Raw, v) {
+						found = true
+					}
+				}
+				rt.Assert(found, "second-revisioned-edit/child-"+n+"-carries-a-template-other-than-its-recorded-revisions")
+			}
+		}
+		rt.Assert(len(r.w.Srv.Revs()) >= 2, "second-revisioned-edit/expected-superseded-revisions")
 	case 0:
 		// b disappears: it must be recreated at the OLD revision's desired state
 		rt.Cover("old-child-disappears")
